@@ -81,8 +81,8 @@ CHECKS = {
    note=REFL + "unsafe: *(*A)(unsafe.Pointer(uintptr(p)+o)) reads/writes exactly the field of type A at offset o when (o,A) is a valid field location, distinct fields occupy disjoint bytes, the GC does not move the struct (record axioms of fget/fput are assumed, they are Go's memory layout); offset arithmetic overflow is not checked.",
    tech="contract-based deductive verification: unsafe access pattern as typed field update with a validity obligation, object invariant, reflect datatype", ref="6/C01"),
  "C02": dict(
-   text="Proof as C01, read for its else-panics half: every normal return of NewLens/NewReflector/ForProductN/ForSpectrumN yields an optic whose location is a valid field location of identical type (object invariant checked at creation), all other requests panic; Gett/Putt panic, before touching memory, unless the argument's dynamic type is *S. Genuine defects found by these obligations: derivation accepted fields behind embedded pointers, pointer containers and look-alike focus types (repaired), and attr[0:N] reading names beyond len(attr) (16 call sites, recorded as known findings).",
-   note=REFL + "as C01.", cat="other",
+   text="Proof as C01, read for its else-panics half: every normal return of NewLens/NewReflector/ForProductN/ForSpectrumN yields an optic whose location is a valid field location of identical type (object invariant checked at creation), all other requests panic; Gett/Putt panic, before touching memory, unless the argument's dynamic type is *S. Genuine defects found by these obligations: derivation accepted fields behind embedded pointers, pointer containers and look-alike focus types (repaired), and attr[0:N] reading names beyond len(attr) at 16 call sites (repaired in c0bb686: fewer than N names now panic).",
+   note=REFL + "as C01.", cat="proof",
    tech="contract-based deductive verification: specified panics, object invariant at derivation, slice-bounds obligations", ref="6/C02"),
  "C16": dict(
    text="Proof with the AST as an exclusively owned tree (pointers to AST nodes are values, Ast is their sum datatype; pointer-receiver methods update their receiver in place, a child borrowed by a type switch is written back): append is verified against ins (the node becomes the last child of the innermost still-open context on the last-child spine) and unit against closeinner, both by recursion on the tree with the callee's contract as induction hypothesis; From/Join/LiftF/WrapF/Unit/Yield against ins/closeinner of nodes whose recorded names are tname(rtype) of the step's own type parameters, preserving the root-and-open invariant that makes every append accepted; typeName against its recursive spec; Apply of all four node kinds (behavioural subtyping against the Ast contract, loop invariant for the children) against walk: enter, children one level deeper in order, leave, stopping at the first callback whose (position-dependent) error is not nil, which is returned. List lemmas are re-proved by induction each run.",
